@@ -120,7 +120,7 @@ def cs_json(arr):
 def canon_md_entry(m):
     """metadata entries are defaultdict(lambda: None): `entry[key]` answers None for a key it does not hold — and
     stores the key while doing so.  A key holding None is therefore the same observation as an absent key."""
-    return {k: v for k, v in core.canon_md_entry(m).items() if v != "null"}
+    return {k: v for k, v in core.canon_md_entry(m).items() if v != "null" and not k.startswith("c13_")}
 
 
 def canon_md(md):
@@ -131,7 +131,7 @@ def table_obs(t):
     o = core.table_obs(t)
     for k in ("omd", "smd"):
         if o[k] is not None:
-            o[k] = [{kk: v for kk, v in e.items() if v != "null"} for e in o[k]]
+            o[k] = [{kk: v for kk, v in e.items() if v != "null" and not kk.startswith("c13_")} for e in o[k]]
     return o
 
 
@@ -270,6 +270,9 @@ def reentrant(f, t, seed, allow_nnz, only=None):
         (["nnz"] if allow_nnz else [])
     if only:
         kinds = list(only)
+    else:
+        kinds.append("suspended-iter")
+    susp = {}
 
     def pre():
         for _ in range(rr.randint(1, 2)):
@@ -294,6 +297,14 @@ def reentrant(f, t, seed, allow_nnz, only=None):
                 t.metadata(axis=rr.choice(["sample", "observation"]))
             elif k == "str":
                 str(t)
+            elif k == "suspended-iter":
+                # an iteration started earlier and resumed now, after other reads may have flipped the layout
+                if "it" not in susp:
+                    susp["it"] = t.iter(axis=rr.choice(["sample", "observation"]))
+                try:
+                    next(susp["it"])
+                except StopIteration:
+                    del susp["it"]
             else:
                 int(t.nnz)
 
@@ -469,6 +480,27 @@ def make_bystanders(t, rng):
     return out
 
 
+def md_writer(f):
+    """a user function that WRITES into the metadata mapping it is handed (records something about the vector): the
+    annotation belongs to the table whose vectors are transformed — the result — and to no other table"""
+    def g(v, i, m):
+        r = f(v, i, m)          # the value is computed from the entry as handed over; the notes are added afterwards
+        if m is not None:
+            m["c13_mark"] = 7
+            m["c13_nest"] = {"a": {"n": len(v)}}
+        return r
+    return g
+
+
+def marks_of(t):
+    """per axis: how many metadata entries carry the writer's marker"""
+    out = {}
+    for axis in ("observation", "sample"):
+        md = t.metadata(axis=axis)
+        out[axis] = None if md is None else sum(1 for e in md if "c13_mark" in e or "c13_nest" in e)
+    return out
+
+
 def wrap_fn(f, how):
     """other shapes a user function comes in: partial application, callable object, bound method, a function that
     itself runs transforms on an unrelated table while the outer transform is running"""
@@ -505,8 +537,18 @@ def invoke(case, t):
     op = case["op"]
     axis, inplace = case["axis"], case["inplace"]
     pos = case.get("call") == "positional"   # the docstring's spelling: t.transform(f, 'observation', False)
+    # a flag computed from data is numpy.bool_, one read from a config is 0 / 1: truthiness decides, not identity
+    flag = case.get("flag")
+    if flag == "np":
+        inplace = np.True_ if inplace else np.False_
+    elif flag == "int":
+        inplace = 1 if inplace else 0
+    elif flag == "np-int":
+        inplace = np.int64(1) if inplace else np.int64(0)
     if op == "transform":
         f = wrap_fn(py_fn(case["fn"]), case.get("wrap"))
+        if case.get("mdwrite"):
+            f = md_writer(f)
         if case.get("reenter") is not None:
             allow_nnz = (not inplace) or case["fn"]["name"] in NONZEROING or \
                 (case["fn"]["name"] == "scale" and case["fn"]["k"] != "0") or bool(case.get("nnz-probe"))
@@ -661,6 +703,35 @@ def check_table(ctx, impls, case, tags=()):
         if res is not t:
             extra["viewsSelf"] = view_tables(t, srng, which=2)
     r = ask_table(ctx, case, before, axis, case["inplace"], cap, obs, facts, tags, extra)
+    if case.get("mdwrite"):
+        # what the function wrote into the mappings it was handed sits on the RESULT's entries of the transformed
+        # axis (one per ID) and nowhere else: not on the other axis, not on the receiver of a not-in-place call, not
+        # on any other live table
+        mtags = tuple(tags) + ("table", "md-writer", "impl=" + case["impl"], "op=" + case["op"], "axis=" + axis,
+                               "inplace=%s" % case["inplace"])
+        other_axis = "sample" if axis == "observation" else "observation"
+        mres, mself = marks_of(res), marks_of(t)
+        ctx.count("table:md-writer,md-on-axis=%s" % (mres[axis] is not None))
+        if mres[axis] is not None and mres[axis] != len(res.ids(axis=axis)):
+            ctx.fail(case, "md-write-missing-on-result", mtags, detail={"marks": mres})
+        if mres[other_axis]:
+            ctx.fail(case, "md-write-on-other-axis", mtags, detail={"marks": mres})
+        if res is not t and any(v for v in mself.values() if v):
+            ctx.fail(case, "md-write-reached-receiver", mtags, detail={"marks": mself})
+        for name, b, _ in list(bystanders) + list(keep.get("siblings", [])):
+            if any(v for v in marks_of(b).values() if v):
+                ctx.fail(case, "md-write-reached-bystander", mtags + ("bystander=" + name,))
+    if case.get("agree"):
+        # the same call on an identically built table with the other in-place mode gives the same table (also for
+        # order-sensitive functions on unsorted layouts: the copy keeps the storage order)
+        twin = build_case_table(case)
+        with kernels.use_kernels(mods):
+            other = invoke(dict(case, inplace=not case["inplace"], flag=None), twin)
+        ctx.count("table:inplace-vs-copy")
+        if table_obs(other) != obs["result"]:
+            ctx.fail(case, "inplace-vs-copy-differ", tuple(tags) + ("table", "impl=" + case["impl"], "op=" + case["op"],
+                                                                    "axis=" + axis),
+                     detail={"this": obs["result"], "other": table_obs(other)})
     if keep:
         # the caller's own scipy matrix and the sibling tables built from it belong to somebody else
         ktags = tuple(tags) + ("table", "shared-matrix", "impl=" + case["impl"], "op=" + case["op"], "axis=" + axis,
@@ -780,6 +851,8 @@ def ask_table(ctx, case, before, axis, inplace, cap, obs, facts, tags, more=None
         ctx.count("table:md=%s" % case["mdmode"])
     if case.get("wrap"):
         ctx.count("table:wrap=%s" % case["wrap"])
+    if case.get("flag"):
+        ctx.count("table:flag=%s,inplace=%s" % (case["flag"], inplace))
     if case.get("wfilter"):
         ctx.count("table:warnings=%s" % case["wfilter"])
     if case.get("ids"):
@@ -845,6 +918,8 @@ def check_cli(ctx, impls, case, tags=()):
     mods = impls[case["impl"]]
     os.makedirs(TMP, exist_ok=True)
     inp, out = os.path.join(TMP, "in.biom"), os.path.join(TMP, "out.biom")
+    if case.get("samepath") and not case.get("refuse"):
+        out = inp
     try:
         t = core.build(case["spec"], case["route"])
         if case["fmt"] == "json":
@@ -879,7 +954,7 @@ def check_cli(ctx, impls, case, tags=()):
         finally:
             os.dup2(saved_fd, 1)
             os.close(saved_fd)
-        if open(inp, "rb").read() != in_bytes:
+        if out != inp and open(inp, "rb").read() != in_bytes:
             ctx.fail(case, "cli-input-file-changed", tuple(tags) + ("cli", "impl=" + case["impl"]))
         if case.get("refuse"):
             ctx.case(case, nontrivial=True)
@@ -898,7 +973,7 @@ def check_cli(ctx, impls, case, tags=()):
             return None
         result = load_table(out)
         robs = table_obs(result)
-        api = table_obs(invoke(dict(case, inplace=False), load_table(inp)))
+        api = table_obs(invoke(dict(case, inplace=False), loaded))
     finally:
         shutil.rmtree(TMP, ignore_errors=True)
     axis = case["axis"] if case["op"] == "norm" else "sample"
@@ -939,6 +1014,26 @@ def gen_table_spec(rng, nonneg=False, big=False, wild=None):
     return spec
 
 
+def decimalise(rng, spec, axis):
+    """relative abundances as they come out of a text export: every vector of `axis` holds decimal fractions (6-9
+    places, not dyadic) whose total is a chosen number up to rounding — exactly-ish 1, within 1e-5 / 1e-9 of 1 without
+    being 1, or far from 1"""
+    rows = [list(r) for r in spec["rows"]]
+    n, m = len(rows), len(rows[0])
+    for j in range(m if axis == "sample" else n):
+        cells = [(i, j) for i in range(n) if rows[i][j]] if axis == "sample" else \
+            [(j, i) for i in range(m) if rows[j][i]]
+        if not cells:
+            continue
+        w = [rng.randint(1, 50) for _ in cells]
+        total = float(sum(w))
+        T = rng.choice([1 - 3e-6, 1 + 2e-6, 0.99999, 1.00001, 1.0, 1 - 1e-9, 0.999, 0.5, 100.0, 1e-5])
+        d = rng.choice([6, 6, 7, 9])
+        for (a, b), wi in zip(cells, w):
+            rows[a][b] = max(round(wi / total * T, d), 10.0 ** -d)
+    return dict(spec, rows=rows)
+
+
 def gen_wild_case(rng, impl):
     """tiny / huge magnitudes: only operations whose float result is exact (pa, ranks, value-carrying transforms),
     norm on the subset that stays within its tolerance, and norm -> X chains"""
@@ -960,6 +1055,9 @@ def gen_wild_case(rng, impl):
         spec = gen_table_spec(rng, nonneg=True)
         spec["rows"] = [[(max(1.0, float(round(x))) * scale if x else 0.0) for x in r] for r in spec["rows"]]
         case["spec"], case["wild"], case["hist"] = spec, "scaled", rng.choice(HISTS[:5])
+    elif op == "norm" and rng.random() < 0.6:
+        case["spec"] = decimalise(rng, gen_table_spec(rng, nonneg=True), case["axis"])
+        case["wild"], case["hist"] = "decimal", rng.choice(HISTS[:5])
     return case
 
 
@@ -1056,6 +1154,14 @@ def decorate(rng, case):
         case["wrap"] = rng.choice(["partial", "object", "method", "nested", "generator-list"])
     if rng.random() < 0.1:
         case["wfilter"] = rng.choice(["ignore", "always", "error"])
+    if rng.random() < 0.3:
+        case["flag"] = rng.choice(["np", "int", "np-int"])   # numpy.False_/True_, 0/1 instead of False/True
+    if case["op"] == "transform" and rng.random() < 0.25:
+        case["mdwrite"] = True
+        if case["spec"].get(key) is None and not case.get("addmd") and rng.random() < 0.8:
+            case["spec"] = dict(case["spec"], **{key: hetero_md(rng, ids)})
+    if case["op"] == "transform" and "stress" not in case and rng.random() < 0.2:
+        case["agree"] = True
     return case
 
 
@@ -1282,6 +1388,10 @@ def run(ctx):
         case["spell"] = rng.choice([None, "long", "default-axis"])
         if case["spell"] == "default-axis":
             case["axis"] = "sample"
+        if case["op"] == "norm" and k % 4 == 1:
+            case["spec"] = decimalise(rng, gen_table_spec(rng, nonneg=True), case["axis"])
+        if k % 3 == 0:
+            case["samepath"] = True    # -o names the input file
         if k % 5 == 4:
             case["refuse"] = rng.choice(["both", "neither", "bad-axis"])
         for impl in names:
